@@ -925,6 +925,37 @@ func vfC01Gen(rt *rapid.T) *vfC01Case {
 			}
 		}
 	}
+	// flipping the unsigned rcode of a genuine NODATA is most interesting at an empty non-terminal of an NSEC zone:
+	// every record and signature of the reply is the signer's own
+	if directedName == "" && c.Tamper != nil && c.Tamper.Edit == "flip-rcode" && rapid.IntRange(0, 2).Draw(rt, "entflip") != 0 {
+		var ents [][2]string
+		for _, a := range apexes {
+			z := c.W.Zones[a]
+			if !z.Signed || z.NSEC3 || z.NoDS || z.WrongDS {
+				continue
+			}
+			seen := map[string]bool{}
+			var owners []string
+			for o := range z.Owners {
+				owners = append(owners, o)
+			}
+			sort.Strings(owners)
+			for _, o := range owners {
+				ls, al := dns.SplitDomainName(o), dns.SplitDomainName(a)
+				for k := 1; k < len(ls)-len(al); k++ {
+					anc := strings.Join(ls[k:], ".") + "."
+					if z.Owners[anc] == nil && !seen[anc] && !strings.HasPrefix(anc, "*") {
+						seen[anc] = true
+						ents = append(ents, [2]string{anc, a})
+					}
+				}
+			}
+		}
+		if len(ents) > 0 {
+			k := ents[rapid.IntRange(0, len(ents)-1).Draw(rt, "entwhich")]
+			directedName, c.Tamper.Zone, c.Tamper.Kind = k[0], k[1], "nodata"
+		}
+	}
 	// a validated alias whose target does not exist in an *insecure* zone, and that zone answers the bare way (header
 	// only): the alias's authenticity says nothing about the denial
 	bareAlias := ""
